@@ -35,17 +35,9 @@ dvars == <<st, ret, phase, st0, wire, boxes, pending, extra, ver>>
 None == [class |-> "none"]
 Deliverable(w) == w # 9                                   \* the Public collection has no inbox
 DropNil(s) == SelectSeq(s, LAMBDA e : ~IsNilE(e))
-\* what a JSON round trip makes of the value: nil entries are not written, a list that mentions one addressee twice (only the
-\* audience can, after Address) is read back with the first mention only; everything else comes back in its own form
-\* (the decoder compares members with ItemsEqual: all IRI forms of one addressee are equal to each other and to an embedded
-\*  object with that id, but an embedded Person and an embedded Note with the same id are different items)
-SameItem(a, b) == a.w = b.w /\ {a.f, b.f} # {"actor", "object"}
-RECURSIVE OnceFrom(_, _, _)
-OnceFrom(s, i, acc) == IF i > Len(s) THEN acc
-                       ELSE IF \E k \in 1..Len(acc) : SameItem(acc[k], s[i]) THEN OnceFrom(s, i + 1, acc)
-                       ELSE OnceFrom(s, i + 1, Append(acc, s[i]))
-Once(s) == OnceFrom(DropNil(s), 1, <<>>)
-WireOf(s) == [s EXCEPT !.to = Once(s.to), !.cc = Once(s.cc), !.bto = Once(s.bto), !.bcc = Once(s.bcc), !.aud = Once(s.aud)]
+\* what a JSON round trip makes of the value: nil entries are not written; everything else comes back as written, repeats
+\* included (only the audience can still mention an addressee twice after Address)
+WireOf(s) == [s EXCEPT !.to = DropNil(s.to), !.cc = DropNil(s.cc), !.bto = DropNil(s.bto), !.bcc = DropNil(s.bcc), !.aud = DropNil(s.aud)]
 StripOf(s) == [s EXCEPT !.bto = <<>>, !.bcc = <<>>]
 AppendSet(s, m) == IF \E i \in 1..Len(s) : s[i] = m THEN s ELSE Append(s, m)
 Who == {e.w : e \in {x \in Pool : ~IsNilE(x)}}
